@@ -40,6 +40,22 @@ pub fn round_price_down(p: f64, tick_size: f64) -> Price {
     p as Price
 }
 
+/// Snap a price (that may have been clamped to the price limits) onto the tick grid
+///
+/// The upper price limit is generally not a multiple of
+/// the tick-size, in which case the price is moved down
+/// to the closest valid price.
+///
+/// # Arguments
+///
+/// - `p` - Price
+/// - `tick_size` - Market tick size
+///
+fn snap_to_tick(p: Price, tick_size: f64) -> Price {
+    let tick_size = tick_size as Price;
+    p - p % tick_size
+}
+
 /// Filter active orders and randomly cancel them
 ///
 /// Filter a vec of [OrderId] for those that are active and
@@ -103,7 +119,7 @@ pub fn place_buy_limit_order<R: RngCore, D: Distribution<f64>>(
 ) -> Result<OrderId, OrderError> {
     let dist = price_dist.sample(rng).abs();
     let price = mid_price - dist;
-    let price = round_price_down(price, tick_size);
+    let price = snap_to_tick(round_price_down(price, tick_size), tick_size);
     env.place_order(Side::Bid, trade_vol, trader_id, Some(price))
 }
 
@@ -136,7 +152,7 @@ pub fn place_sell_limit_order<R: RngCore, D: Distribution<f64>>(
 ) -> Result<OrderId, OrderError> {
     let dist = price_dist.sample(rng).abs();
     let price = mid_price + dist;
-    let price = round_price_up(price, tick_size);
+    let price = snap_to_tick(round_price_up(price, tick_size), tick_size);
     env.place_order(Side::Ask, trade_vol, trader_id, Some(price))
 }
 
@@ -211,7 +227,7 @@ pub fn place_buy_limit_order_market<
 ) -> Result<MarketOrderId, OrderError> {
     let dist = price_dist.sample(rng).abs();
     let price = mid_price - dist;
-    let price = round_price_down(price, tick_size);
+    let price = snap_to_tick(round_price_down(price, tick_size), tick_size);
     env.place_order(asset, Side::Bid, trade_vol, trader_id, Some(price))
 }
 
@@ -252,7 +268,7 @@ pub fn place_sell_limit_order_market<
 ) -> Result<MarketOrderId, OrderError> {
     let dist = price_dist.sample(rng).abs();
     let price = mid_price + dist;
-    let price = round_price_up(price, tick_size);
+    let price = snap_to_tick(round_price_up(price, tick_size), tick_size);
     env.place_order(asset, Side::Ask, trade_vol, trader_id, Some(price))
 }
 
